@@ -410,6 +410,9 @@ def resolve(owner, cname, pname):
                        (OWNER, (owner.pool, pname)), (OWNER, (owner.name, pname)), (GLOBAL, pname)):
         if key in table:
             return table[key]
+    if pname == "other" and owner.kind == "class":
+        # comparison operators: another, separately built, populated instance of the same class
+        return lambda: [owner.populated()]
     return None
 
 
